@@ -15,9 +15,12 @@ static int lowzero_bits (int format, int t)
 		return bits >= tw ? 0 : tw - bits ; }
 }
 
-enum { G_NOISE, G_EXTREME, G_SILENCE, G_RAMP, G_SINE, G_LOWNOISE, G_IMPULSE, G_CHANNELS, G_N } ;
+enum { G_NOISE, G_EXTREME, G_SILENCE, G_RAMP, G_SINE, G_LOWNOISE, G_IMPULSE, G_CHANNELS, G_STEPS, G_N } ;
 static int gen_ch = 1 ;	/* channel count for G_CHANNELS: smooth but mutually unrelated channels (sine, constant, slower sine, slow ramp ...) */
-static const char *gname [] = { "noise", "extremes", "silence", "ramp", "sine", "lownoise", "impulse", "unrelated-channels" } ;
+static const char *gname [] = { "noise", "extremes", "silence", "ramp", "sine", "lownoise", "impulse", "unrelated-channels", "steps" } ;
+static int gen_phase ;	/* G_STEPS: a nearly flat level of +-30000 (16-bit scale) with a ripple of a few LSB, whose sign flips once per 4096 frames, 1..8 frames behind
+						** a multiple of 4096: compressible (so a predictive coder does not fall back to verbatim packets), with a near-full-scale step inside the
+						** first samples of a packet, where predictors run on plain deltas */
 
 static void gen_data (void *buf, int t, long items, int gen, int lz)
 {	long i ;
@@ -31,6 +34,7 @@ static void gen_data (void *buf, int t, long items, int gen, int lz)
 			case G_SINE : iv = (int32_t) (2147483000.0 * sin (i * 0.013)) ; break ;
 			case G_LOWNOISE : iv = ((int32_t) vh_rnd ()) >> 20 << 16 ; break ;
 			case G_IMPULSE : iv = (vh_rint (97) == 0) ? (int32_t) vh_rnd () : 0 ; break ;
+			case G_STEPS : { long fr = i / gen_ch ; int c = (int) (i % gen_ch) ; long off = 1 + (c * 3 + gen_phase) % 8, edges = (fr + 4096 - off) / 4096 ; iv = ((edges & 1) ? 1 : -1) * (int64_t) 0x75300000 + ((fr * 7 + c) % 5 - 2) * 0x10000 ; } break ;
 			case G_CHANNELS : { long fr = i / gen_ch ; int c = (int) (i % gen_ch) ; iv = (c % 4 == 0) ? (int32_t) (1.9e9 * sin (fr * 0.013 + c)) : (c % 4 == 1) ? 0x01234500 + c * 0x1100 : (c % 4 == 2) ? (int32_t) (6.0e8 * sin (fr * 0.0071 + 1)) : (int32_t) (fr * 7001 - 1000000) ; } break ;
 			}
 		switch (t)
@@ -75,10 +79,18 @@ static void run_case (int format, int ch, int rate, int t, int lz, int gen, long
 	const char *fn = vh_fname (format) ;
 	void *wbuf = vh_guard_alloc (items * ts, 0), *rbuf ;
 	memset (&m, 0, sizeof (m)) ;
-	gen_ch = ch ; gen_data (wbuf, t, items, gen, lz) ;
+	gen_ch = ch ; gen_phase = vh_rint (8) ; gen_data (wbuf, t, items, gen, lz) ;
 	s = vh_open_w (&m, format, ch, rate, NULL) ;
 	if (s == NULL)
 	{	vh_viol (vh_key ("C01|open-write-failed|%s", fn), "sf_format_check accepted but open failed: %s", sf_strerror (NULL)) ; free (wbuf) ; return ; }
+	/* writer options that change how the header is laid out or labelled, never what the samples are: the round trip must not notice them */
+	switch (vh_rint (8))
+	{	case 0 : if ((format & SF_FORMAT_TYPEMASK) == SF_FORMAT_WAVEX) { sf_command (s, SFC_WAVEX_SET_AMBISONIC, NULL, SF_AMBISONIC_B_FORMAT) ; vh_stat ("option:wavex-ambisonic-b-format", 1) ; } break ;
+		case 1 : sf_command (s, SFC_SET_ADD_PEAK_CHUNK, NULL, SF_FALSE) ; vh_stat ("option:no-peak-chunk", 1) ; break ;
+		case 2 : sf_command (s, SFC_SET_UPDATE_HEADER_AUTO, NULL, SF_TRUE) ; vh_stat ("option:auto-header-update", 1) ; break ;
+		case 3 : if ((format & SF_FORMAT_TYPEMASK) == SF_FORMAT_RF64) { sf_command (s, SFC_RF64_AUTO_DOWNGRADE, NULL, SF_TRUE) ; vh_stat ("option:rf64-auto-downgrade", 1) ; } break ;
+		default : break ;
+		}
 	for (done = 0 ; done < items ; )
 	{	long k = (pmode == 0) ? items - done : ch * (1 + vh_rint (pmode == 1 ? 9 : 5000)) ; sf_count_t w ;
 		if (k > items - done) k = items - done ;
